@@ -71,6 +71,21 @@ CHECKS = {
         "model equality / deep type.",
         "DESIGN.md section 5 C08",
     ),
+    "C13": (
+        "exhaustive pool sweep (itertools.product over a 29-value pool, "
+        "multiprocessing) of every function object and syntactic form with an "
+        "exception-class oracle; failures bucketed by signature",
+        "Every distinct function object of the base environments and bundled "
+        "modules (about 220) x all argument tuples of arity <= 3 (quick: "
+        "arity <= 2 exhaustive + 5 % of arity 3; thorough: all, ~2.5 million "
+        "calls) and about 130 syntactic forms x all operand tuples are "
+        "evaluated; anything but a proper value, a CklRuntimeError carrying a "
+        "language value, or a CklSyntaxError within the time budget is a "
+        "violation. Exhaustive over the pool, silent about values outside it.",
+        "Trusted: the pool as representative of value kinds and edge values; "
+        "2 s / 20 s budgets as termination; scratch cwd/HOME.",
+        "DESIGN.md section 5 C13",
+    ),
     "C15": (
         "exhaustive enumeration of small sequences x index arguments against "
         "a sequence reference model, plus Hypothesis for long sequences and "
